@@ -153,6 +153,8 @@ def fault_sites(deck):
                 sites.append(('fill-array:long-signed-entry', ci))
                 # (a bare R or I stands for 1R, 1I)
                 sites.append(('fill-array:long-by-bare-repeat', ci))
+                # a repeat that starts inside the array and runs past its end
+                sites.append(('fill-array:long-by-overshooting-repeat', ci))
                 sites.append(('fill-array:long-by-bare-interpolate', ci))
     for ti, t in enumerate(deck['transforms']):
         if t['id'] in used_tr and t['spec']['full'] is not None:
@@ -291,6 +293,8 @@ def inject(deck, fclass, site):
             toks = toks[:-1]
         elif fclass.endswith('by-bare-repeat'):
             toks = toks + ['r']
+        elif fclass.endswith('by-overshooting-repeat'):
+            toks = [toks[0], '%dr' % len(toks)]
         elif fclass.endswith('by-bare-interpolate'):
             toks = toks + ['i', str(int(toks[-1]) + 2)]
         elif fclass.endswith('by-repeat'):
